@@ -27,6 +27,7 @@ type EffectSet struct {
 	Cut      bool                     // depth bound or recursion hit
 	ChanSend map[*types.Var]token.Pos // send on channel held in field
 	ChanRecv map[*types.Var]token.Pos // receive from channel held in field
+	Ext      map[string]token.Pos     // statically resolved callees without a body in the workspace ("pkg.Func" / "pkg.Type.Method")
 }
 
 // DynCall is a call whose callee is not statically known.
@@ -44,7 +45,7 @@ func NewEffects(ix *Index) *Effects {
 
 func newEffectSet() *EffectSet {
 	return &EffectSet{Writes: map[*types.Var]token.Pos{}, Closes: map[*types.Var]token.Pos{},
-		ChanSend: map[*types.Var]token.Pos{}, ChanRecv: map[*types.Var]token.Pos{}}
+		ChanSend: map[*types.Var]token.Pos{}, ChanRecv: map[*types.Var]token.Pos{}, Ext: map[string]token.Pos{}}
 }
 
 func (s *EffectSet) merge(o *EffectSet) {
@@ -66,6 +67,11 @@ func (s *EffectSet) merge(o *EffectSet) {
 	for k, v := range o.ChanRecv {
 		if _, ok := s.ChanRecv[k]; !ok {
 			s.ChanRecv[k] = v
+		}
+	}
+	for k, v := range o.Ext {
+		if _, ok := s.Ext[k]; !ok {
+			s.Ext[k] = v
 		}
 	}
 	s.Dynamic = append(s.Dynamic, o.Dynamic...)
@@ -201,6 +207,14 @@ func (e *Effects) Body(info *types.Info, body ast.Node, depth int) *EffectSet {
 						s.Cut = true
 					} else {
 						s.merge(e.of(target, depth+1))
+					}
+				} else if callee.Pkg() != nil {
+					name := callee.Pkg().Path() + "." + callee.Name()
+					if rn := RecvNamed(callee); rn != nil {
+						name = callee.Pkg().Path() + "." + rn.Obj().Name() + "." + callee.Name()
+					}
+					if _, ok := s.Ext[name]; !ok {
+						s.Ext[name] = x.Pos()
 					}
 				}
 			case *types.Var:
